@@ -1,22 +1,29 @@
 #!/bin/bash
-# run_seeded.sh [ID...] : for every seeded mutant (default all): apply it to /repo, run the quick check of its property, revert;
-# record the outcome in seeded/<id>/meta.json ("verified").  /repo must be clean.  Sequential (the checks rebuild from /repo).
+# run_seeded.sh [ID...] : for every seeded mutant (default all): apply it to a scratch git worktree of /repo, run the quick check
+# of its property against that worktree (VERIF_REPO), and record the outcome in seeded/<id>/meta.json ("verified").
+# /repo itself is never touched; evidence/ and replays/ of these runs go to a scratch directory (VERIF_OUT).
 export GOFLAGS=-mod=mod GOPROXY=off GOSUMDB=off GOTOOLCHAIN=local VERIF_NOSHRINK=1
+WT=${SEED_WT:-/tmp/seedrepo}
+export VERIF_REPO=$WT VERIF_BUILD=/verif/build/seeded VERIF_OUT=${SEED_OUT:-/tmp/seedout}
 cd /verif
+mkdir -p $VERIF_BUILD $VERIF_OUT
+git -C /repo worktree remove --force $WT 2>/dev/null; git -C /repo worktree prune
+git -C /repo worktree add --detach $WT HEAD -f >/dev/null 2>&1 || { echo "cannot create worktree"; exit 2; }
 ids="$@"; [ -z "$ids" ] && ids=$(ls seeded)
 head=$(git -C /repo rev-parse --short HEAD)
 for id in $ids; do
   prop=${id%%-*}
-  git -C /repo diff --quiet || { echo "/repo not clean"; exit 2; }
-  if ! git -C /repo apply --check /verif/seeded/$id/patch.diff 2>/dev/null; then
+  git -C $WT checkout -q -- . ; git -C $WT clean -fdq
+  if ! git -C $WT apply --check /verif/seeded/$id/patch.diff 2>/dev/null; then
     echo "$id DOES-NOT-APPLY"; python3 tools/seeded_meta.py $id $head "" "" ; continue
   fi
-  git -C /repo apply /verif/seeded/$id/patch.diff
+  git -C $WT apply /verif/seeded/$id/patch.diff
+  rm -rf $VERIF_OUT/replays/$prop
   out=$(python3 checks/check.py $prop quick 2>&1); rc=$?
-  git -C /repo checkout -- .
   nv=$(echo "$out" | grep -c '^VIOLATION')
-  first=$(echo "$out" | grep '^VIOLATION' | head -1 | sed 's/.*replay=//')
+  first=$(echo "$out" | grep '^VIOLATION' | head -1 | sed 's/.*replay=//; s/ .*//')
   echo "$id check=$prop rc=$rc violations=$nv $first"
   python3 tools/seeded_meta.py $id $head $rc "$first"
-  rm -rf replays/$prop
 done
+git -C /repo worktree remove --force $WT; git -C /repo worktree prune
+rm -rf $VERIF_OUT
